@@ -35,7 +35,9 @@ def dtext(fr):
 
 
 def rate_value(rid):
-    return float('%.6e' % ((rid * 0.37 + 0.011) * 10 ** ((rid % 5) - 3)))
+    v = (rid * 0.37 + 0.011) * 10 ** ((rid % 5) - 3)
+    # two rates in three are short decimals; the third is a computed number that needs all 17 significant digits in the file
+    return float('%.6e' % v) if rid % 3 else v / 3.0
 
 
 def write_dat(path, case, tab, magtab, swap):
